@@ -297,6 +297,7 @@ def _server_outcomes(w, scn, cut_sets):
 
     loop, net = w.loop, w.net
     by_conn = {}
+    errtext = {}
 
     async def handler(request):
         cid = request.transport.get_extra_info("sim_conn")
@@ -330,6 +331,7 @@ def _server_outcomes(w, scn, cut_sets):
         except Exception as e:
             rec[6] = type(e).__name__
             rec[4] = bytes(body)
+            errtext[cid] = "payload:" + "_".join(re.sub(r"[^A-Za-z ]", " ", str(getattr(e, "message", None) or e)).split()[:4])
             raise
         return web.Response(body=b"ok")
 
@@ -363,7 +365,7 @@ def _server_outcomes(w, scn, cut_sets):
         msgs = tuple(tuple(r) for r in recs if r != ("ERR",))
         closed = str_._closed or str_._closing
         outcomes.append({"msgs": msgs, "rejected": rejected, "statuses": statuses, "closed": closed,
-                         "exc": bool(loop.exc_contexts) or bool(net.fatal_errors)})
+                         "exc": bool(loop.exc_contexts) or bool(net.fatal_errors), "errtext": errtext.pop(cid, None)})
         loop.exc_contexts.clear()
         net.fatal_errors.clear()
         if not ctr._closed:
@@ -462,6 +464,12 @@ def _compare(base, other, side, strict_class=True):
         return any(m[4] is None and m[6] is None for m in o["msgs"]) or bool(o.get("blocked"))
 
     if _blocked(base) != _blocked(other):
+        done = other if _blocked(base) else base
+        if done["rejected"]:
+            # same bytes: one delivery schedule is still waiting for input, the other has already refused them
+            return ("accept_reject_independent", f"{side}:incomplete_vs_rejected:{done.get('errtext') or done['rejected']}",
+                    f"one segmentation keeps waiting for more input, another rejects ({done['rejected']}); "
+                    f"statuses {base['statuses']} vs {other['statuses']}")
         return ("same_messages", f"{side}:reader_blocked_under_one_segmentation",
                 "a body was read completely under one segmentation but its reader is still blocked (all bytes "
                 "delivered) under the other")
